@@ -106,83 +106,34 @@ func constOf(c *rt.Ctx, pkgRel, name string) int64 {
 func c07(c *rt.Ctx) {
 	k := newC07k(c)
 	const (
-		nStoreExternal = "core/parsigdb.MemDB.StoreExternal"
-		nStore         = "core/parsigdb.MemDB.store"
-		nGTM           = "core/parsigdb.getThresholdMatching"
-		nTrack         = "core/parsigdb.MemDB.trackExemptUnsafe"
-		nEvict         = "core/parsigdb.MemDB.evictExemptShareEntryUnsafe"
+		nGTM = "core/parsigdb.getThresholdMatching"
 	)
 
 	c.Rule("P1", 8, func() {
 		lockRule(c, []string{"core/parsigdb"}, an.LockTable{
-			memdb + ".entries":       "mu", // every access in store/Trim/evict* is under mu
-			memdb + ".keysByDuty":    "mu", // written in store, drained in Trim
-			memdb + ".exemptEntries": "mu", // written only from trackExemptUnsafe (store holds mu)
+			c07f("entries"):       c07fields["mu"], // every access in store/Trim/evict* is under mu
+			c07f("keysByDuty"):    c07fields["mu"], // written in store, drained in Trim
+			c07f("exemptEntries"): c07fields["mu"], // written only from trackExemptUnsafe (store holds mu)
 		})
 	})
 
-	// outputMaps: the locally made maps of StoreExternal that are handed (possibly cloned, possibly through
-	// an in-package helper) to the calls through threshSubs.
-	outputMaps := func(fn *ssa.Function) []ssa.Value {
-		var out []ssa.Value
-		for _, in := range an.Instrs(fn, false) {
-			if mk, ok := in.(*ssa.MakeMap); ok && k.flowsToFan(mk, 0) {
-				out = append(out, mk)
-			}
-		}
-		return out
-	}
-
-	// fanSources: the functions of the package that make an output map, with their maps (StoreExternal today; a
-	// helper that took over its batch loop after a refactoring).
-	type fanSource struct {
-		fn   *ssa.Function
-		maps []ssa.Value
-	}
-	fanSources := func() []fanSource {
-		var out []fanSource
-		for _, fn := range k.ix.Funcs {
-			if ms := outputMaps(fn); len(ms) > 0 {
-				out = append(out, fanSource{fn, ms})
-			}
-		}
-		return out
-	}
-
 	c.Rule("P2", 1, func() {
-		c.Fn(nStoreExternal)
-		srcs := fanSources()
-		if len(srcs) == 0 {
+		// every insertion into a map that is handed to the threshold subscribers is followed, on every path to the end
+		// of the operation (through the callers of helpers), by the fan-out
+		writes := k.outputWrites()
+		if k.nOut == 0 {
 			c.Bail("no locally made map of the package flows into a call through threshSubs")
 		}
-		for _, src := range srcs {
-			fn := src.fn
-			for _, m := range src.maps {
-				writes := k.mapWrites(fn, m)
-				if len(writes) == 0 {
-					c.Bail("no write to the threshold-output map found in %s", an.FuncName(fn))
-				}
-				// after an insertion the map is non-empty: `len(output) == 0` (in any spelling) is decided
-				env := an.H07Env{LenMin: func(x ssa.Value) (int64, bool) { return 1, an.Resolve(x) == m }}
-				for _, w := range writes {
-					path, esc := an.H07Path(fn, w, nil, k.fanEffect(m), env.Prune(), nil)
-					if esc && c07pathHasFlagBranch(path) {
-						// a flag variable decides: follow it from the function entry
-						path, esc = an.H07PathVia(fn, w, k.fanEffect(m), env.Prune())
-					}
-					if esc && c07pathHasFlagBranch(path) && !c07flagsDecided(path) {
-						c.Unsure("StoreExternal output-write→threshSubs", posOf(w), "the fan-out is skipped on a branch over a flag variable that is not evaluated: "+an.PathString(c.P, path))
-						continue
-					}
-					c.Check("StoreExternal output-write→threshSubs", posOf(w), !esc,
-						"path from the validator reaching threshold to a return that skips the threshold fan-out: "+an.PathString(c.P, path))
-				}
-			}
+		if len(writes) == 0 {
+			c.Bail("no write to the threshold-output map found")
+		}
+		for _, w := range writes {
+			k.report("StoreExternal output-write→threshSubs", posOf(w), k.fanAfter(w.Parent(), w, 0))
 		}
 	})
 
 	c.Rule("P3", 6, func() {
-		fn := c.Fn(nGTM)
+		fn := k.matcherFn(nGTM)
 		var typP, sigsP, thrP *ssa.Parameter
 		for _, p := range fn.Params {
 			switch {
@@ -198,174 +149,19 @@ func c07(c *rt.Ctx) {
 			c.Bail("getThresholdMatching: unexpected signature")
 		}
 		dutySig := constOf(c, "core", "DutySignature")
-		nTrue := 0
-		// matcher decides the returns of f (getThresholdMatching, or an in-package function it returns the
-		// results of) for the stored list sigsP and the threshold thrP. typP (may be nil) is the duty type
-		// parameter; sigCtx says that f is only reached for DutySignature.
-		var matcher func(f *ssa.Function, typP, sigsP, thrP *ssa.Parameter, sigCtx bool, depth int)
-		matcher = func(f *ssa.Function, typP, sigsP, thrP *ssa.Parameter, sigCtx bool, depth int) {
-			isThr := func(v ssa.Value) bool { return v != nil && an.Resolve(v) == ssa.Value(thrP) }
-			// lenEq: b is `len(set) == threshold` as a value
-			lenEq := func(b, set ssa.Value) bool {
-				bin, ok := an.Resolve(b).(*ssa.BinOp)
-				if !ok || bin.Op != token.EQL {
-					return false
-				}
-				l, o := bin.X, bin.Y
-				if an.H07IsLen(l) == nil {
-					l, o = bin.Y, bin.X
-				}
-				x := an.H07IsLen(l)
-				return x != nil && an.Resolve(x) == an.Resolve(set) && isThr(o)
-			}
-			// sizeGuard: the return lies on the `len(set) == threshold` edge of a branch
-			sizeGuard := func(r *ssa.Return, set ssa.Value) c07v {
-				seen := false
-				for _, lc := range an.H07Lens(f, set) {
-					for _, cd := range an.CondsOn(f, lc) {
-						if !isThr(cd.Other) {
-							continue
-						}
-						seen = true
-						if (cd.Op == token.EQL && an.H07CondEdgeDominates(cd, true, r.Block())) ||
-							(cd.Op == token.NEQ && an.H07CondEdgeDominates(cd, false, r.Block())) {
-							return c07Ok()
-						}
-					}
-				}
-				if !seen && set.Referrers() != nil {
-					for _, ref := range *set.Referrers() {
-						if ci, ok := ref.(ssa.CallInstruction); ok && k.ix.Callee(ci.Common()) != nil {
-							return c07Unsure("the size of the returned group is tested by a callee")
-						}
-					}
-				}
-				return c07Bad("returned group is not guarded by len(group) == threshold (parameter)")
-			}
-			typTested := false
-			onSigEdge := func(r *ssa.Return) bool {
-				if sigCtx {
-					return true
-				}
-				if typP == nil {
-					return false
-				}
-				for _, cd := range an.CondsOn(f, typP) {
-					if n, ok := an.ConstInt(cd.Other); !ok || n != dutySig {
-						continue
-					}
-					typTested = true
-					if (cd.Op == token.EQL && an.H07CondEdgeDominates(cd, true, r.Block())) ||
-						(cd.Op == token.NEQ && an.H07CondEdgeDominates(cd, false, r.Block())) {
-						return true
-					}
-				}
-				return false
-			}
-			for _, r := range an.Returns(f) {
-				rv := returnValues(r)
-				if len(rv) != 3 {
-					continue
-				}
-				okc, isConst := c07constBool(rv[1])
-				if isConst && !okc {
-					continue
-				}
-				// the results of an in-package callee handed on unchanged: decide the callee
-				if c0, i0, ok0 := c07resultOf(rv[0]); ok0 && !isConst {
-					if c1, i1, ok1 := c07resultOf(rv[1]); ok1 && c0 == c1 && i0 == 0 && i1 == 1 {
-						if h := k.ix.Callee(&c0.Call); h != nil && depth < 2 {
-							var hTyp, hSigs, hThr *ssa.Parameter
-							for i, a := range c0.Call.Args {
-								if i >= len(h.Params) {
-									break
-								}
-								switch an.Resolve(a) {
-								case ssa.Value(sigsP):
-									hSigs = h.Params[i]
-								case ssa.Value(thrP):
-									hThr = h.Params[i]
-								}
-								if typP != nil && an.Resolve(a) == ssa.Value(typP) {
-									hTyp = h.Params[i]
-								}
-							}
-							if hSigs == nil || hThr == nil {
-								nTrue++
-								k.report("getThresholdMatching true-return size", posOf(r),
-									c07Bad(an.FuncName(h)+" is not given the stored list and the threshold parameter unchanged"))
-								continue
-							}
-							matcher(h, hTyp, hSigs, hThr, onSigEdge(r), depth+1)
-							continue
-						}
-					}
-				}
-				nTrue++
-				set := an.Resolve(rv[0])
-				// (a) the group has exactly threshold members
-				size := c07Ok()
-				switch {
-				case isConst:
-					size = sizeGuard(r, set)
-				case lenEq(rv[1], set):
-				default:
-					size = c07Unsure("ok is neither a constant nor `len(set) == threshold` over the returned list")
-					if bin, isBin := an.Resolve(rv[1]).(*ssa.BinOp); isBin && (an.H07IsLen(bin.X) != nil || an.H07IsLen(bin.Y) != nil) {
-						size = c07Bad("ok is not `len(sigs) == threshold` over the returned list")
-					}
-				}
-				// (b) the group is one message-root group of the stored list (the whole list only for DutySignature)
-				prov := c07Ok()
-				var mapv ssa.Value
-				switch x := set.(type) {
-				case *ssa.Extract:
-					if nx, ok := x.Tuple.(*ssa.Next); ok && x.Index == 2 {
-						if rg, ok := nx.Iter.(*ssa.Range); ok && an.IsMapType(rg.X.Type()) {
-							mapv = rg.X
-						}
-					}
-				case *ssa.Lookup:
-					if an.IsMapType(x.X.Type()) {
-						mapv = x.X
-					}
-				}
-				switch {
-				case set == ssa.Value(sigsP):
-					if !onSigEdge(r) {
-						prov = c07Bad("set returned with ok=true is the whole stored list, not a value of the message-root grouping map (allowed for DutySignature only)")
-						if typP != nil && !typTested {
-							prov = c07Unsure("the whole stored list is returned and the test for DutySignature is not recognised")
-						}
-					}
-				case mapv != nil:
-					prov = k.grouping(f, mapv, sigsP, 0)
-				case an.IsNilConst(set):
-					prov = c07Bad("nil set returned with ok possibly true")
-				default:
-					prov = c07Unsure("origin of the set returned with ok=true is not recognised")
-				}
-				if set == ssa.Value(sigsP) {
-					k.report("getThresholdMatching DutySignature shortcut", posOf(r), size.and(prov))
-				} else {
-					k.report("getThresholdMatching true-return size", posOf(r), size)
-					k.report("getThresholdMatching grouping by MessageRoot", posOf(r), prov)
-				}
-			}
-		}
-		matcher(fn, typP, sigsP, thrP, false, 0)
-		if nTrue == 0 {
+		m := &c07matcher{k: k, typP: typP, sigsP: sigsP, thr: thrP, dutySig: dutySig}
+		m.run(&c07frame{fn: fn}, 0, 1)
+		if m.nTrue == 0 {
 			c.Bail("getThresholdMatching never returns ok=true")
 		}
 		// call-site binding: every call evaluates the snapshot returned by db.store against the configured threshold
-		store := c.Fn(nStore)
 		calls := k.callsOf(fn)
 		if len(calls) == 0 {
 			c.Bail("no static call of getThresholdMatching in the package")
 		}
 		var thresholdArg func(v ssa.Value, depth int) c07v
 		thresholdArg = func(v ssa.Value, depth int) c07v {
-			if isLoadOfValueField(an.Resolve(v), memdb+".threshold") {
+			if isLoadOfValueField(an.Resolve(v), c07f("threshold")) {
 				return c07Ok()
 			}
 			switch x := an.Resolve(v).(type) {
@@ -417,10 +213,11 @@ func c07(c *rt.Ctx) {
 				}
 				h := k.ix.Callee(&sc.Call)
 				switch {
-				case h == store && idx == 0:
-					return c07Ok()
 				case h == nil:
 					return c07Unsure("list argument is the result of a call that is not followed")
+				case k.growsEntries(h) && k.returnsSnapshot(h, idx):
+					// the function that inserts (directly or through helpers) hands back its snapshot (P9 decides that it is one)
+					return c07Ok()
 				}
 				out, n := c07Ok(), 0
 				for _, r := range an.Returns(h) {
@@ -450,11 +247,12 @@ func c07(c *rt.Ctx) {
 			if h == nil {
 				return c07Unsure("the published set is the result of a call that is not followed")
 			}
-			if h == store {
+			if h != fn && k.growsEntries(h) && k.returnsSnapshot(h, idx) {
 				return c07Bad("value published for the validator is the whole stored list, not the checked result of getThresholdMatching")
 			}
 			if h == fn {
-				if g, _ := an.Guarded(mc, at, an.BoolGuard(1, true)); g && idx == 0 {
+				// published exactly when the matcher reports ok (ok=true is what makes the set a threshold group)
+				if g, _ := an.Guarded(mc, at, an.GuardOpt{BoolIdx: 1, BoolWant: true, NoErr: true}); g && idx == 0 {
 					return c07Ok()
 				}
 				return c07Bad("value published for the validator is not the checked result of getThresholdMatching")
@@ -463,7 +261,7 @@ func c07(c *rt.Ctx) {
 			if len(bis) != 1 || depth > 2 {
 				return c07Unsure("cannot tell which result of " + an.FuncName(h) + " reports that threshold was reached")
 			}
-			if g, _ := an.Guarded(mc, at, an.BoolGuard(bis[0], true)); !g {
+			if g, _ := an.Guarded(mc, at, an.GuardOpt{BoolIdx: bis[0], BoolWant: true, NoErr: true}); !g {
 				return c07Bad("value published for the validator is not guarded by the `reached` result of " + an.FuncName(h))
 			}
 			return produces(h, idx, bis[0], depth+1)
@@ -498,28 +296,9 @@ func c07(c *rt.Ctx) {
 			return out
 		}
 		nOut := 0
-		for _, src := range fanSources() {
-			for _, m := range src.maps {
-				for _, w := range k.mapWrites(src.fn, m) {
-					nOut++
-					up, isUp := w.(*ssa.MapUpdate)
-					if call, isCall := w.(*ssa.Call); isCall {
-						// a function literal that captured the map: decide its assignments where they are
-						for _, inner := range k.closureWrites(call, m) {
-							isUp = true
-							k.report("StoreExternal output value", posOf(inner), matchOf(inner.Value, inner, 0))
-						}
-						if isUp {
-							continue
-						}
-					}
-					if !isUp {
-						c.Unsure("StoreExternal output value", posOf(w), "the threshold-output map is filled by a callee")
-						continue
-					}
-					k.report("StoreExternal output value", posOf(up), matchOf(up.Value, up, 0))
-				}
-			}
+		for _, up := range k.outputWrites() {
+			nOut++
+			k.report("StoreExternal output value", posOf(up), matchOf(up.Value, up, 0))
 		}
 		if nOut == 0 {
 			c.Bail("no write to a threshold-output map found")
@@ -555,302 +334,104 @@ func c07(c *rt.Ctx) {
 	})
 
 	c.Rule("P8", 1, func() {
-		// every accepted insertion is evaluated against the threshold: from db.store (accepted edge) every path to the
-		// next iteration / exit passes getThresholdMatching
-		store := c.Fn(nStore)
-		gtm := c.Fn(nGTM)
-		sites := k.callsOf(store)
-		if len(sites) == 0 {
-			c.Bail("no static call of db.store in the package")
+		// every accepted insertion is evaluated against the threshold: from the growing append to entries every path to
+		// the next iteration of the batch loop / the end of the operation (followed through the callers of the storing
+		// helpers, with what their returns say about the results) passes a call of the matcher
+		gtm := k.matcherFn(nGTM)
+		n := 0
+		for _, fn := range k.ix.Funcs {
+			for _, up := range mapUpdates(fn, c07entries) {
+				if up.Parent() != fn {
+					continue
+				}
+				if _, _, ok := c07growAppend(up, c07entries); !ok {
+					continue
+				}
+				n++
+				k.report("StoreExternal accepted insertion→getThresholdMatching", posOf(up), k.evalAfter(fn, up, nil, gtm, 0))
+			}
 		}
-		bis := c07boolResults(store.Signature)
-		if len(bis) != 1 {
-			c.Bail("store: expected exactly one boolean result")
-		}
-		for _, st := range sites {
-			fn := st.Parent()
-			if st.Value() == nil {
-				c.Unsure("StoreExternal accepted insertion→getThresholdMatching", st.Pos(), "db.store is called with go/defer")
-				continue
-			}
-			l := an.InnermostLoop(fn, st.Block())
-			var hdr *ssa.BasicBlock
-			if l != nil {
-				hdr = l.Header
-			}
-			errs0, okv0 := an.StatusOf(st, bis[0])
-			var list0 ssa.Value
-			for _, ref := range *st.Value().Referrers() {
-				if ex, ok := ref.(*ssa.Extract); ok && ex.Index == 0 {
-					list0 = ex
-				}
-			}
-			// the results, and the variables that hold them on every path from the call (`sigs, ok, err = db.store(...)`
-			// assigned to variables declared before: phis whose other edges cannot be reached from the call)
-			var errs, oks, lists []ssa.Value
-			for _, e := range errs0 {
-				errs = append(errs, c07aliasesAfter(st, e, hdr)...)
-			}
-			if okv0 != nil {
-				oks = c07aliasesAfter(st, okv0, hdr)
-			}
-			if list0 != nil {
-				lists = c07aliasesAfter(st, list0, hdr)
-			}
-			prune := func(b *ssa.BasicBlock, succ int) bool {
-				iff, ok := b.Instrs[len(b.Instrs)-1].(*ssa.If)
-				if !ok {
-					return false
-				}
-				for _, e := range errs {
-					for _, cd := range an.CondsOn(fn, e) {
-						if cd.If == iff && cd.Other != nil && an.IsNilConst(cd.Other) && (cd.Op == token.EQL || cd.Op == token.NEQ) {
-							return b.Succs[succ] == cd.Succ(cd.Op != token.EQL) // err != nil edge: rejected
-						}
-					}
-				}
-				for _, okv := range oks {
-					for _, cd := range an.CondsOn(fn, okv) {
-						if cd.If == iff && cd.Other == nil {
-							return b.Succs[succ] == cd.Succ(false) // duplicate ignored
-						}
-					}
-				}
-				// `len(list) < db.threshold` is a sound shortcut (getThresholdMatching starts with the same test)
-				for _, list := range lists {
-					for _, lc := range an.H07Lens(fn, list) {
-						for _, cd := range an.CondsOn(fn, lc) {
-							if cd.If != iff || cd.Other == nil || !isLoadOfValueField(an.Resolve(cd.Other), memdb+".threshold") {
-								continue
-							}
-							switch cd.Op {
-							case token.LSS:
-								return b.Succs[succ] == cd.Succ(true)
-							case token.GEQ:
-								return b.Succs[succ] == cd.Succ(false)
-							}
-						}
-					}
-				}
-				return false
-			}
-			var stop func(b *ssa.BasicBlock) bool
-			if l != nil {
-				stop = func(b *ssa.BasicBlock) bool { return b == l.Header }
-			}
-			path, esc := an.H07Path(fn, st, nil, k.callEffect(gtm), prune, stop)
-			if esc && l == nil && len(path) > 0 {
-				// a helper that only stores and hands the result on: the evaluation may follow in its callers
-				last := path[len(path)-1]
-				if r, ok := last.Instrs[len(last.Instrs)-1].(*ssa.Return); ok && list0 != nil {
-					for _, v := range returnValues(r) {
-						if an.Resolve(v) == list0 {
-							c.Unsure("StoreExternal accepted insertion→getThresholdMatching", st.Pos(),
-								an.FuncName(fn)+" returns the stored list to its callers without evaluating it; the evaluation in the callers is not followed")
-							esc = false
-						}
-					}
-					if !esc {
-						continue
-					}
-				}
-			}
-			if esc && c07pathHasFlagBranch(path, oks...) {
-				c.Unsure("StoreExternal accepted insertion→getThresholdMatching", st.Pos(), "the evaluation is skipped on a branch over a flag variable that is not evaluated: "+an.PathString(c.P, path))
-				continue
-			}
-			c.Check("StoreExternal accepted insertion→getThresholdMatching", st.Pos(), !esc,
-				"an accepted partial signature is not evaluated against the threshold on path "+an.PathString(c.P, path)+": a matching group can reach threshold unnoticed")
+		if n == 0 {
+			c.Bail("no append to entries in the package")
 		}
 	})
 
 	c.Rule("P5", 1, func() {
-		fn := c.Fn(nStoreExternal)
-		store := c.Fn(nStore)
-		add := c.OneCall(fn, an.Invoke("core.Deadliner.Add"), "deadliner.Add", false)
+		// in the function that asks the deadliner: under status == DeadlineExpired no insertion into entries is reachable
 		expired := constOf(c, "core", "DeadlineExpired")
-		var sinks []ssa.CallInstruction
-		for _, in := range an.Instrs(fn, false) {
-			if ci, ok := in.(ssa.CallInstruction); ok {
-				if g := k.ix.Callee(ci.Common()); g != nil && k.mayCall(g, store) {
-					sinks = append(sinks, ci)
+		nAdd := 0
+		for _, fn := range k.ix.Funcs {
+			for _, add := range an.Calls(fn, an.Invoke("core.Deadliner.Add"), false) {
+				if add.Value() == nil {
+					continue
+				}
+				nAdd++
+				var sinks []ssa.Instruction
+				for _, in := range an.Instrs(fn, false) {
+					switch x := in.(type) {
+					case *ssa.MapUpdate:
+						if _, _, grow := c07growAppend(x, c07entries); grow && c07entries(x.Map) {
+							sinks = append(sinks, in)
+						}
+					case ssa.CallInstruction:
+						if g := k.ix.Callee(x.Common()); g != nil && k.growsEntries(g) {
+							sinks = append(sinks, in)
+						}
+					}
+				}
+				if len(sinks) == 0 {
+					c.Unsure("StoreExternal expired→no store", add.Pos(), "no insertion into entries (direct or through an in-package helper) in the function that asks the deadliner")
+					continue
+				}
+				addv := add.Value()
+				env := func(v ssa.Value) (constant.Value, bool) {
+					if v == ssa.Value(addv) {
+						return constant.MakeInt64(expired), true
+					}
+					return nil, false
+				}
+				decided := 0
+				for _, b := range fn.Blocks {
+					if iff, ok := b.Instrs[len(b.Instrs)-1].(*ssa.If); ok {
+						if _, ok := an.C05Eval(iff.Cond, env); ok {
+							decided++
+						}
+					}
+				}
+				for _, st := range sinks {
+					if decided == 0 {
+						c.Unsure("StoreExternal expired→no store", st.Pos(), "no branch is decided by the status returned by deadliner.Add (expiry test not recognised)")
+						continue
+					}
+					good := an.Dominates(add, st) && !an.C05ReachUnder(add, st, env)
+					c.Check("StoreExternal expired→no store", st.Pos(), good, "db.store is reachable when deadliner.Add reports DeadlineExpired")
 				}
 			}
 		}
-		if len(sinks) == 0 {
-			c.Bail("no call (direct or through an in-package helper) of db.store in StoreExternal")
-		}
-		env := func(v ssa.Value) (constant.Value, bool) {
-			if v == add.Value() {
-				return constant.MakeInt64(expired), true
-			}
-			return nil, false
-		}
-		decided := 0
-		for _, b := range fn.Blocks {
-			if iff, ok := b.Instrs[len(b.Instrs)-1].(*ssa.If); ok {
-				if _, ok := an.C05Eval(iff.Cond, env); ok {
-					decided++
-				}
-			}
-		}
-		for _, st := range sinks {
-			if decided == 0 {
-				c.Unsure("StoreExternal expired→no store", st.Pos(), "no branch of StoreExternal is decided by the status returned by deadliner.Add (expiry test not recognised)")
-				continue
-			}
-			good := an.Dominates(add, st) && !an.C05ReachUnder(add, st, env)
-			c.Check("StoreExternal expired→no store", st.Pos(), good, "db.store is reachable when deadliner.Add reports DeadlineExpired")
+		if nAdd == 0 {
+			c.Bail("no call of deadliner.Add in the package")
 		}
 	})
 
 	c.Rule("P6", 2, func() {
-		fn := c.Fn(nTrack)
-		evict := c.Fn(nEvict)
 		limit := constOf(c, "core/parsigdb", "maxExemptEntriesPerShare")
-		ups := mapUpdates(fn, c07exempt)
-		if len(ups) == 0 {
-			c.Bail("no write-back of exemptEntries")
-		}
-		// prior: the tracked list as looked up; grown: the list with the new key appended. The cap test may be
-		// written on either (`len(grown) > max` after, `len(prior) >= max` before the append).
-		var grown, prior ssa.Value
-		derives := func(v ssa.Value) (direct, ok bool) { // v is prior, or prior re-sliced / merged
-			direct = true
-			for i := 0; i < 6; i++ {
-				v = an.Resolve(v)
-				switch x := v.(type) {
-				case *ssa.Lookup:
-					return direct, c07exempt(x.X)
-				case *ssa.Slice:
-					v, direct = x.X, false
-				case *ssa.Phi:
-					for _, e := range x.Edges {
-						if lk, isLk := an.Resolve(e).(*ssa.Lookup); isLk && c07exempt(lk.X) {
-							return false, true
-						}
-					}
-					return false, false
-				default:
-					return false, false
-				}
-			}
-			return false, false
-		}
-		for _, in := range an.Instrs(fn, false) {
-			if lk, ok := in.(*ssa.Lookup); ok && c07exempt(lk.X) {
-				if prior != nil && !an.Equiv(prior, lk) {
-					c.Bail("trackExemptUnsafe: the tracked list is looked up under several keys")
-				}
-				if prior == nil {
-					prior = lk
-				}
-			}
-		}
-		appends := 0
-		for _, in := range an.Instrs(fn, false) {
-			if call, ok := c07isBuiltin2(in, "append"); ok && len(call.Call.Args) == 2 {
-				if direct, ok := derives(call.Call.Args[0]); ok {
-					appends++
-					if direct {
-						grown = call
-					}
-				}
-			}
-		}
-		if prior == nil || appends != 1 {
-			c.Bail("trackExemptUnsafe: expected one lookup of exemptEntries[ek] and one append of the new key to it")
-		}
-		// assume the cap is exceeded (len(prior)+1 > limit): every path to a write-back must evict first
-		env := an.H07Env{LenMin: func(x ssa.Value) (int64, bool) {
-			switch an.Resolve(x) {
-			case grown:
-				return limit + 1, grown != nil
-			case prior:
-				return limit, true
-			}
-			return 0, false
-		}}
-		isEvict := func(in ssa.Instruction) bool {
-			ci, ok := in.(*ssa.Call)
-			if !ok {
-				return false
-			}
-			g := k.ix.Callee(&ci.Call)
-			return g != nil && (g == evict || k.mustCallFn(g, evict))
-		}
-		capTests, evicts := 0, 0
-		for _, b := range fn.Blocks {
-			for _, in := range b.Instrs {
-				if isEvict(in) {
-					evicts++
-				}
-			}
-		}
-		// a recognised cap test: a branch comparing the length of the tracked list with a constant (decided once the
-		// list is assumed arbitrarily long) one edge of which leads to the eviction. Whether its constant is the
-		// right one is what the path search below decides.
-		huge := an.H07Env{LenMin: func(x ssa.Value) (int64, bool) {
-			r := an.Resolve(x)
-			return 1 << 40, r == prior || (grown != nil && r == grown)
-		}}
-		for _, b := range fn.Blocks {
-			iff, ok := b.Instrs[len(b.Instrs)-1].(*ssa.If)
-			if !ok {
-				continue
-			}
-			if _, isCmp := huge.Eval(iff.Cond); !isCmp {
-				continue
-			}
-			for _, b2 := range fn.Blocks {
-				for _, in := range b2.Instrs {
-					if isEvict(in) && (an.H07EdgeDominates(b, 0, b2) || an.H07EdgeDominates(b, 1, b2)) {
-						capTests++
-					}
-				}
-			}
-		}
-		for _, up := range ups {
-			path, reach := an.H07Path(fn, nil, up, isEvict, env.Prune(), nil)
-			if reach && evicts > 0 && (capTests == 0 || c07pathHasFlagBranch(path)) {
-				c.Unsure("trackExemptUnsafe cap before write-back", posOf(up), "the entry is evicted under a cap test that is not recognised")
-				continue
-			}
-			c.Check("trackExemptUnsafe cap before write-back", posOf(up), !reach,
-				"write-back of the per-share list is not preceded by the cap test that evicts the oldest entry: with more than maxExemptEntriesPerShare tracked keys path "+an.PathString(c.P, path)+" reaches it without evicting")
-		}
-		// called only on the exempt edge, and `exempt` is `status == DeadlineExempt`
 		exemptC := constOf(c, "core", "DeadlineExempt")
-		sites := k.callsOf(fn)
-		if len(sites) == 0 {
-			c.Bail("no static call of trackExemptUnsafe in the package")
+		n := 0
+		for _, fn := range k.ix.Funcs {
+			var ups []*ssa.MapUpdate
+			for _, up := range mapUpdates(fn, c07exempt) {
+				if up.Parent() == fn {
+					ups = append(ups, up)
+				}
+			}
+			if len(ups) == 0 {
+				continue
+			}
+			n++
+			k.p6(fn, ups, limit, exemptC)
 		}
-		for _, call := range sites {
-			caller := call.Parent()
-			v := c07Bad("trackExemptUnsafe is not called exactly on the exempt edge")
-			seen := false
-			for _, p := range caller.Params {
-				if b, ok := p.Type().Underlying().(*types.Basic); !ok || b.Kind() != types.Bool {
-					continue
-				}
-				for _, cd := range an.CondsOn(caller, p) {
-					if cd.Other != nil {
-						continue
-					}
-					seen = true
-					if an.H07CondEdgeDominates(cd, true, call.Block()) {
-						v = k.statusIs(p, exemptC, 0)
-					}
-				}
-			}
-			if !seen && v.st == c07bad {
-				for _, b := range caller.Blocks {
-					if iff, ok := b.Instrs[len(b.Instrs)-1].(*ssa.If); ok && an.Dominates(iff, call) {
-						v = c07Unsure("the condition under which trackExemptUnsafe is called is not a boolean parameter")
-					}
-				}
-			}
-			k.report("store tracks exempt entries", call.Pos(), v)
+		if n == 0 {
+			c.Bail("no write-back of exemptEntries")
 		}
 	})
 
@@ -865,7 +446,7 @@ func c07(c *rt.Ctx) {
 					if !ok || (b.Name() != "delete" && b.Name() != "clear") {
 						continue
 					}
-					if key, _, ok := an.FieldOf(x.Call.Args[0]); !ok || key != memdb+".entries" {
+					if key, _, ok := an.FieldOf(x.Call.Args[0]); !ok || key != c07f("entries") {
 						continue
 					}
 					v := c07Bad("")
@@ -875,17 +456,17 @@ func c07(c *rt.Ctx) {
 					if v.st == c07bad {
 						v.why = "partial signatures are removed from a key outside expiry trimming: a group that already fired can shrink and reach exactly threshold again"
 					}
-					k.report(an.FuncName(fn)+" delete(entries)", x.Pos(), v)
+					k.report(k.removalOwner(x, fn)+" delete(entries)", x.Pos(), v)
 				case *ssa.MapUpdate:
 					if !c07entries(x.Map) {
 						continue
 					}
 					_, _, grow := c07growAppend(x, c07entries)
 					if call, _, isRes := c07resultOf(x.Value); !grow && isRes && k.ix.Callee(&call.Call) != nil {
-						c.Unsure(an.FuncName(fn)+" entries[k]=", posOf(x), "entries[k] is assigned the result of "+an.FuncName(k.ix.Callee(&call.Call))+", which is not followed")
+						c.Unsure(k.removalOwner(x, fn)+" entries[k]=", posOf(x), "entries[k] is assigned the result of "+an.FuncName(k.ix.Callee(&call.Call))+", which is not followed")
 						continue
 					}
-					c.Check(an.FuncName(fn)+" entries[k]=", posOf(x), grow,
+					c.Check(k.removalOwner(x, fn)+" entries[k]=", posOf(x), grow,
 						"entries[k] is overwritten with something other than append(entries[k], new): stored shares can disappear and threshold be reached again")
 				}
 			}
